@@ -22,6 +22,7 @@ type c16Prog struct {
 	name  string
 	text  string
 	lines [][2]string // output line prefix -> construct id whose extent must contain the marker's line
+	upper [][2]string // output line prefix -> construct id: the marker must not name a line after that construct's first line
 	cfg   bool        // needs the AutoVar command config
 }
 
@@ -38,7 +39,14 @@ var c16Corpus = []c16Prog{
 		lines: [][2]string{{"\tmap_script TYPE1, Sx", "e1"}, {"\tmap_script TYPE2, ", "e2"}, {"\tmap_script TYPE3, ", "e3"}, {"\tmap_script_2 VARA, 1, Sy", "te1"}, {"\tmap_script_2 VARB, 2, ", "te2"}, {"\tcmd10", "c10"}, {"\tcmd11", "c11"}}},
 	{name: "inline+raw", text: `script S3 { ¶ ⟦c12 cmd12 ( "inl1" ) ⟧ ¶ ⟦c13 cmd13 ( 1 , moves ( ⟦st3 stepc ⟧ ⟦st4 stepd ⟧ ) ) ⟧ ¶ ⟦c14 cmd14 ( format ( "fmt3" ) , ascii"inl2" ) ⟧ ¶ } ¶ raw ⟦raw RAW ⟧`,
 		lines: [][2]string{{"\tcmd12 ", "c12"}, {"\t.string \"inl1$\"", "c12"}, {"\tcmd13 ", "c13"}, {"S3_Movement_0:", "c13"}, {"\tstepc", "st3"}, {"\tstepd", "st4"}, {"\tcmd14 ", "c14"}, {"\t.string \"fmt3$\"", "c14"}, {"\t.ascii \"inl2\\0\"", "c14"}}},
+	{name: "multi-part text", text: `script S5 { ¶ ⟦c30 cmd30 ( ⟦x1 MPT1 ⟧ , 7 ) ⟧ ¶ ⟦c31 cmd31 ⟧ ¶ } ¶ ⟦t3 text Tx3 { ¶ ⟦x2 MPT2 ⟧ ¶ } ⟧`,
+		lines: [][2]string{{"\tcmd30 ", "c30"}, {"\t.string \"pa1", "c30"}, {"\tcmd31", "c31"}, {"\t.string \"pb1", "t3"}},
+		upper: [][2]string{{"\t.string \"pa1", "x1"}, {"\t.string \"pb1", "x2"}}},
 }
+
+// multi-part string literals written over several lines (single tokens with a fixed inner layout)
+const c16Multi1 = "\"pa1\\n\"\n\t\t\"pa2\\n\"\n\n\t\t\"pa3\""
+const c16Multi2 = "\"pb1\\p\"\n\t\"pb2\""
 
 const c16Raw = "`rawl0\nrawl1\n\nrawl3\n`"
 
@@ -60,8 +68,13 @@ func c16Parse(text string) []c16Tok {
 		case w == "¶":
 			toks[len(toks)-1].nl = true
 		default:
-			if w == "RAW" {
+			switch w {
+			case "RAW":
 				w = c16Raw
+			case "MPT1":
+				w = c16Multi1
+			case "MPT2":
+				w = c16Multi2
 			}
 			toks = append(toks, c16Tok{text: w, tags: append([]string{}, stack...)})
 		}
@@ -263,6 +276,11 @@ func runC16(tier string) int {
 				if ln < e[0] || ln > e[1] {
 					fail("C16:wrong-line:"+tagKind(tag), fmt.Sprintf("marker %q precedes %q, whose construct (%s) is written on lines %d..%d", l, next, tag, e[0], e[1]))
 				}
+				for _, up := range prog.upper {
+					if strings.HasPrefix(next, up[0]) && ln > ext[up[1]][0] {
+						fail("C16:after-first-line:"+tagKind(up[1]), fmt.Sprintf("marker %q precedes %q, the first line of a text whose first part is written on line %d: the following lines would be numbered past the text", l, next, ext[up[1]][0]))
+					}
+				}
 			}
 			if r.WantSample() && len(lay.extra) == 2 {
 				r.Sample(map[string]interface{}{"program": prog.name, "source": src, "markers": nMarkers})
@@ -278,10 +296,10 @@ func runC16(tier string) int {
 	}
 	r.Set("max_layout_insertions", maxIns)
 	r.Set("corpus_programs", len(c16Corpus))
-	r.Assume("'the line on which the construct was written' is read as any line of the construct's source extent: the command, the label, the operand test incl. its comparison, the switch header, the case, the map-script entry head, the step / item, the whole text/movement/mart statement for the marker at its label, the enclosing command for hoisted text and moves() data; a raw line's own source line",
+	r.Assume("'the line on which the construct was written' is read as any line of the construct's source extent: the command, the label, the operand test incl. its comparison, the switch header, the case, the map-script entry head, the step / item, the whole text/movement/mart statement for the marker at its label, the enclosing command for hoisted text and moves() data; a raw line's own source line; in addition the marker in front of the first line of a multi-line text must not name a line after the one its first part is written on (the following lines of the text are counted from it)",
 		"string literals and raw blocks are single tokens (their inner layout is fixed)")
 	return r.Finish(r.Get("evaluations"), r.Get("nontrivial"),
-		"6 corpus programs covering every marker-emitting construct with unique names x {default, one token per line, all on one line} + every layout obtained from the default by inserting <= k extras (line break, blank line, '#' comment, '//' comment line) at any token gaps; each layout compiled with lm on / off / on without a path; non-trivial = the source has >= 2 lines")
+		"7 corpus programs covering every marker-emitting construct with unique names x {default, one token per line, all on one line} + every layout obtained from the default by inserting <= k extras (line break, blank line, '#' comment, '//' comment line) at any token gaps; each layout compiled with lm on / off / on without a path; non-trivial = the source has >= 2 lines")
 }
 
 func tagKind(tag string) string { return strings.TrimRight(tag, "0123456789") }
